@@ -970,7 +970,7 @@ def rule_attr_handback(ctx, rep, rid):
     `ht->caller_resize_attr ? &ht->resize_attr : NULL` - a shallow copy of the caller's object.  On the deferred branch the table therefore
     forgets the attribute (caller_resize_attr = NULL) once it has handed it back."""
     m = ctx.mod("cds", "perfn")
-    f = m.fn("cds_lfht_destroy")
+    f = ctx.mod("cds", "flat").fn("cds_lfht_destroy")      # flat: a branch moved into a static helper reads the same
     if f is None:
         raise Broken("cds_lfht_destroy vanished")
     rep.touch(f)
